@@ -342,9 +342,11 @@ class defaultdict2(defaultdict):
         return c
 
     def __missing__(self, key):
+        # Never store the default on lookup: the set of keys must only
+        # change when a key is explicitly set or deleted, not by reading.
         try:
-            v = self.default_values[key]
-            self[key] = v
-            return v
+            return self.default_values[key]
         except KeyError:
-            return super(defaultdict2, self).__missing__(key)
+            if self.default_factory is None:
+                raise KeyError(key)
+            return self.default_factory()
